@@ -267,7 +267,7 @@ def field_decl(f, owner=""):
     else:
         lines += before
         lines.append("    %s" % attr_str(f))
-    lines.append("    %s: %s," % (f["name"], t))
+    lines.append("    %s%s: %s," % (f.get("vis", ""), f["name"], t))
     return lines
 
 
@@ -304,7 +304,11 @@ def render_struct(s):
             args.append("debug")
     lines = list(pre)
     lines.append("/// witness %s (%s)" % (s["name"], s["family"]))
+    if s["debug"] and h("dbgdoc", s["path"]) % 3 == 0:
+        lines.append("/// Debug Status and Control Register (the word Debug in a doc comment is just text)")
     lines.append("#[bitfield(%s)]" % ", ".join(args))
+    if s["debug"] and h("dbgdoc", s["path"]) % 3 == 1:
+        lines.append("#[doc = \"documentation below the attribute, mentioning Debug and derive(Debug)\"]")
     for a in s.get("attrs", []):
         lines.append(a)
     lines.append("%sstruct %s {" % (s.get("vis", "pub "), s["name"]))
@@ -392,6 +396,8 @@ def render_enum(e):
     args = ["u%d" % e["bits"]]
     if e["exh"] is not None:
         args.append(("exhaustive: %s" if e.get("legacy_colon") else "exhaustive = %s") % e["exh"])
+        if e.get("exh_first", h("exhfirst", e["path"]) % 4 == 0):
+            args.reverse()  # the two arguments may come in either order
     lines = ["/// witness enum %s" % e["name"], "#[bitenum(%s)]" % ", ".join(args)]
     if not e.get("no_derives"):
         lines.append("#[derive(Debug, PartialEq, Eq)]")
@@ -1809,6 +1815,60 @@ def fam_misc(tier, seed):
             add_const_witnesses(s, seed, maxn=2)
             out.append(s)
         out.append(struct(ctxmod, "CtxDbg", 16, json.loads(json.dumps(fs[:4])), debug=True, family="MISC"))
+    # field names equal to identifiers the expansion is known to use inside accessor bodies, in the field shapes
+    # whose bodies use them (non-contiguous scalar / non-contiguous array / contiguous array / plain), with
+    # primitive-integer, arbitrary-int and bool types
+    inner_names = ["MASK", "CLEAR_MASK", "effective_index", "field_value", "value", "index", "temp", "extracted_bits", "raw_value_", "new_bits", "shift", "bits", "result", "this"]
+    for i, nm in enumerate(inner_names):
+        fs = [field(nm, [(0, 3), (8, 11)], T_uint(8)),
+              field("plain%d" % i, [(4, 7)], T_uint(4))]
+        out.append(struct("misc_in%d" % i, "NcScalar", 32, fs, default={"form": "=", "value": 0x0F0F_0F0F}, family="MISC"))
+        if nm != "index":  # (the accessors of array fields take a parameter called `index`: not a legal field name there)
+            fs = [field(nm, [(0, 1), (4, 5)], T_uint(4), array={"k": 3, "stride": 8}), field("plain%d" % i, [(2, 3)], T_uint(2))]
+            out.append(struct("misc_in%d" % i, "NcArray", 32, fs, default={"form": "=", "value": 0x1234_5678}, family="MISC"))
+            fs = [field(nm, [(0, 7)], T_uint(8), array={"k": 3, "stride": None}), field("plain%d" % i, [(24, 31)], T_int(8))]
+            out.append(struct("misc_in%d" % i, "CtArray", 32, fs, family="MISC"))
+        fs = [field(nm, [(0, 15)], T_uint(16)), field("plain%d" % i, [(16, 16)], T_bool()), field("%s2" % nm, [(17, 19)], T_uint(3))]
+        s_ = struct("misc_in%d" % i, "Plain", 32, fs, family="MISC")
+        add_const_witnesses(s_, seed, maxn=2)
+        out.append(s_)
+    # upper-case and mixed-case field names (register-map style), documented, every kind
+    fs = [field("RXNE", [(0, 0)], T_bool()), field("TXE", [(1, 1)], T_bool(), access="r"), field("DIV_Mantissa", [(4, 15)], T_uint(12)),
+          field("DIV_Fraction", [(16, 19)], T_uint(4), access="w"), field("Ch", [(20, 21)], T_uint(2), array={"k": 3, "stride": None}),
+          field("nRST", [(28, 29), (31, 31)], T_uint(3))]
+    for dflt in (None, {"form": "=", "value": 0x8000_0001}):
+        s_ = struct(mod, "Upper%s" % ("d" if dflt else "n"), 32, json.loads(json.dumps(fs)), default=dflt, family="MISC")
+        add_const_witnesses(s_, seed, maxn=2)
+        out.append(s_)
+    out.append(struct(mod, "UpperDbg", 16, [field("RXNE", [(0, 0)], T_bool()), field("Mode", [(4, 7)], T_uint(4), access="r"), field("DR", [(8, 15)], T_int(8))], debug=True, family="MISC"))
+    # fields written with an explicit visibility
+    for i, fv in enumerate(["pub ", "pub(crate) ", "pub(super) ", "pub(self) "]):
+        fs = [field("mode", [(0, 3)], T_uint(4)), field("flag", [(4, 4)], T_bool(), access="r"), field("lane", [(8, 9)], T_uint(2), array={"k": 4, "stride": None}),
+              field("split", [(16, 19), (24, 27)], T_uint(8), access="w"), field("level", [(20, 23)], T_int(8) if False else T_uint(4))]
+        for f in fs[: 1 + i % 4 + 1]:
+            f["vis"] = fv
+        fs[-1]["vis"] = fv
+        s_ = struct(mod, "FieldVis%d" % i, 32, fs, default=({"form": "=", "value": 0x00C0_FFEE} if i % 2 else None), family="MISC")
+        add_const_witnesses(s_, seed, maxn=3)
+        out.append(s_)
+    # one name declared twice: a read view and a write view of different bits (accepted; each gets its own half of the API)
+    out.append(struct(mod, "TwoViews", 16, [field("ctl", [(4, 7)], T_uint(4), access="w"), field("ctl", [(0, 3)], T_uint(4), access="r"),
+                                           field("st", [(8, 8)], T_bool(), access="r"), field("st", [(9, 9)], T_bool(), access="w"),
+                                           field("data", [(12, 15)], T_uint(4), access="r"), field("data", [(10, 11)], T_uint(2), access="w", array={"k": 1 + 1, "stride": None})][:4],
+                      default={"form": "=", "value": 0x1234}, family="MISC"))
+    out.append(struct(mod, "TwoViews24", 24, [field("v", [(16, 23)], T_uint(8), access="r"), field("v", [(0, 7)], T_int(8), access="w")], family="MISC"))
+    # variant names equal to identifiers generated code / the prelude uses
+    for nm_, bits, exh in (("VarNamesF", 3, None), ("VarNamesC", 3, "conditional"), ("VarNamesT", 2, None)):
+        vn = ["OFF", "MIN", "MAX", "BOTH", "ZERO", "Ok", "Err", "BITS"][: (1 << bits) if nm_.endswith("T") else 6]
+        ds = list(range(len(vn)))
+        if not nm_.endswith("T"):
+            ds[-1] = 6
+        e = enum(mod, nm_, bits, [(v, d, None) for v, d in zip(vn, ds)], exh if exh else ("true" if len(set(ds)) == (1 << bits) else "false"), family="MISC")
+        out.append(e)
+    e = enum(mod, "VarNamesO", 4, [("Some", 1, None), ("None", 2, None), ("Option", 4, None), ("Result", 8, None), ("DEFAULT", 3, None), ("Self_", 15, None), ("MASK", 5, None)], "false", family="MISC")
+    out.append(e)
+    out.append(struct(mod, "UsesVarNames", 16, [field("a", [(0, 2)], T_enum("VarNamesF", 3, False)), field("b", [(4, 5)], T_enum("VarNamesT", 2, True)), field("c", [(8, 11)], T_enum("VarNamesO", 4, False))],
+                      debug=True, family="MISC"))
     # zero fields
     out.append(struct(mod, "Empty8n", 8, [], family="MISC"))
     out.append(struct(mod, "Empty8d", 8, [], default={"form": "=", "value": 7}, family="MISC"))
